@@ -157,7 +157,7 @@ class Built:
 
 
 EVENTS0 = 6_000_000      # most expensive legitimate call measured: ~6e5 call events (refinement through a warm-up chain)
-EVENTS_PER_NODE = 1000    # legitimate tree construction: ~30 call events per designed leaf
+EVENTS_PER_NODE = 400     # legitimate tree construction: ~30 call events per designed leaf
 MAX_DESIGNED = 8192
 
 
